@@ -27,7 +27,21 @@ MANIFEST = {
             "one substream opened for that request id (ghost maps rid -> substream -> wire content); every started request "
             "future writes exactly one payload, the main one or the fallback one iff the substream was negotiated with the "
             "request's own fallback protocol; inbound bound; the "
-            "exact window in which a cancel takes effect. All full strength, by induction over all histories; the "
+            "exact window in which a cancel takes effect. Quiescence is stated over what the transport manager owes, "
+            "not over the protocol's pending_dials: an observer (Model/ReqResp/Env.lean) records every dial() call "
+            "answered Ok until ConnectionEstablished/DialFailure of that peer is delivered; the answers of dial() are "
+            "arbitrary inputs (Ok, AlreadyConnected, TriedToDialSelf, NoAddressAvailable, ChannelClogged, TaskClosed), "
+            "independent of what the protocol was told about the peer, so the window in which the manager still says "
+            "'connected' for a peer the protocol dropped or never registered is included; invariant: every peer with a "
+            "queue in pending_dials is owed a dial; only an Ok answer parks a request, every refusal fails it at once. "
+            "User-facing layer (Model/ReqResp/Handle.lean): every way the per-request future can end is translated into "
+            "at most one user event (none exactly for Canceled); From<SubstreamError> for RejectReason and the "
+            "open-failure translation are total with the stated case split; the handle's stream never hits the From "
+            "impl's panic arm and is a field-preserving one-to-one image of the protocol's events (peer, id, payload, "
+            "error, fallback name), so the user sees at most one terminal event per request; request ids are taken "
+            "before the command is queued and a full command channel (DEFAULT_CHANNEL_SIZE from the source) refuses the "
+            "command and nothing else; an inbound request is answered at most once (send_response / _with_feedback / "
+            "reject_request consume the pending response). All full strength, by induction over all histories; the "
             "oracle checks the same statements on the implementation on every run. Tied to the code "
             "by a seeded differential run of the real protocol + handle (injected transport events, in-memory yamux "
             "substreams, paused clock) against the executable model, plus a per-request ledger oracle.",
@@ -37,25 +51,41 @@ MANIFEST = {
     "technique": "Lean 4 proof (ledger invariant over a labelled transition system) + model/implementation correspondence check",
     "design_ref": "DESIGN.md §7 C13",
 }
-RULE = ("seeded histories over 4 peers (3 dialable): bursts of 1-4 requests per peer with dial-on-demand or reject, "
+RULE = ("seeded histories over 5 peers (the local one, 3 dialable, 1 unknown) with the transport manager's view of every "
+        "peer scripted independently of the transport events (unknown / no address / disconnected / dial record pending / "
+        "dialing / opening / connected; its command channel clogged or gone): the view follows the events with a lag "
+        "(connected before the protocol hears of the connection, still connected after the protocol was told that the "
+        "connection closed - requests issued in that window -, dialing after a DialPeer command) or changes on its own; "
+        "every send API (try_send_request, send_request, the two _with_fallback variants, 2-5 and 257-4100 requests back "
+        "to back so that the command channel / the manager's channel overflow), "
+        "bursts of 1-4 requests per peer with dial-on-demand or reject, "
         "connection established/closed (up to two connections per peer), dial failures, dead connections, substream "
         "open / open failure per request (optionally negotiated with a fallback protocol that is or is not the request's, "
         "optionally with a far end nobody reads so that a 300000-byte request blocks in the first-stage send until its "
         "timeout), requests with a fallback payload, responder answers / rejects / closes at a byte offset / stalls, cancels at "
-        "random points, logical-time advances across the request timeout, inbound requests (complete or held, beyond the "
-        "inbound limit) answered / refused / dropped, payloads 0..max+1; most cases end with a drain phase that answers "
+        "random points (also of one of several requests waiting for the same dial), substreams whose connection is gone "
+        "before the request is written, 12 kinds of substream-open failure, logical-time advances across the request "
+        "timeout, inbound requests (complete or held, beyond the "
+        "inbound limit, negotiated with a fallback name) answered (with or without feedback channel, twice) / refused / "
+        "dropped, payloads 0..max+1; a state snapshot before the end; most cases end with a drain phase that answers "
         "every dial and substream open and lets every future time out; a case is non-trivial if it has a delivered "
         "response and a failure; distinct = distinct (ops, observations) transcripts by SHA-256")
 TRUSTED_BASE = ["Lean 4.33 kernel", "axioms: propext, Classical.choice, Quot.sound only",
                 "hand-written model Model/ReqResp/Ledger.lean (protocol) and the environment model inside Driver/C13.lean "
                 "(TransportService + harness, used only by the driver) tied to request_response/mod.rs by this correspondence run",
-                "adapter /repo/src/verif/c13.rs (plays transport manager, connections and remote peers), harness, verif.py, "
-                "checks/c13.py",
+                "adapter /repo/src/verif/c13.rs (plays transport manager, connections and remote peers; the real "
+                "TransportManagerHandle::dial runs over the manager's shared peer map, which src/verif/c13_manager.rs "
+                "fills with real PeerState values), harness, verif.py, checks/c13.py",
                 "tokio runtime with paused clock (timeouts driven by logical time, 1 unit = 10 s)",
                 "yamux + Substream framing treated as a black box whose results (response / eof / read failure / too large) "
                 "are validated by the differential run"]
 ASSUMPTIONS = ["request and substream ids come from fetch_add counters and are never reused (stated as hypotheses of the "
                "step relation)",
+               "C05: a dial() answered Ok (started or already in progress) is concluded by ConnectionEstablished or "
+               "DialFailure for that peer; the quiescence theorem is conditional on no such dial being outstanding "
+               "(dialsOwed = [])",
+               "the user reads the handle's events between operations (the adapter drains after every operation), so the "
+               "4096-slot event channel never blocks the protocol for longer than one operation",
                "transport events respect the C08 grammar: substream results only for substreams the protocol still waits "
                "for, at most two connections per peer (the adapter refuses anything else)",
                "keep-alive downgrades are outside the scope (C09): the adapter uses an effectively infinite keep-alive",
@@ -426,7 +456,10 @@ def corpus():
             # full command channel; inbound fallback names; feedback
             ["cfg max=64 timeout=2 inmax=2", "burst 4 4097 reject", "ev established 1 0", "inbound 1 4 4 fb=2",
              "answer i0 3 3 feedback", "answer i0 3 3 feedback", "inbound 1 4 5 hold fb=9", "feed i1", "answer i1 100 3 feedback",
-             "inbound 1 4 6", "refuse i2", "answer i2 1 1 feedback", "state"]]
+             "inbound 1 4 6", "refuse i2", "answer i2 1 1 feedback", "state"],
+            # the read of an inbound request completes after its connection was replaced / is gone
+            ["cfg max=64 timeout=2 inmax=2", "ev established 1 0", "inbound 1 4 4 hold", "ev closed 1 0", "ev established 1 1",
+             "feed i0", "state", "inbound 1 4 5 hold fb=1", "ev closed 1 1", "feed i1", "state"]]
 
 
 def mutate_case(rng, case, n):
